@@ -198,6 +198,9 @@ type exec struct {
 	// oldAgain: it has been closed a second time since (a deferred Close, or the library's own late clean-up)
 	old      net.PacketConn
 	oldAgain bool
+	// allocLT: the LIFETIME the scripted server grants in its Allocate success response (0 = the usual 3600 s)
+	allocLT    uint32
+	allocLTSet bool
 	light    bool // long runs: no per-step trace/state bookkeeping
 }
 
@@ -245,7 +248,7 @@ func (x *exec) serve() {
 			x.send(wire.New(wire.Allocate, wire.Success, m.TxID).
 				XorAddr(wire.AttrXORRelayedAddress, relayAddr.IP, relayAddr.Port).
 				XorAddr(wire.AttrXORMappedAddress, cliAddr.IP, cliAddr.Port).
-				U32(wire.AttrLifetime, 3600).Bytes())
+				U32(wire.AttrLifetime, x.grantedLifetime()).Bytes())
 		case wire.Refresh:
 			lt, _ := m.U32(wire.AttrLifetime)
 			x.send(wire.New(wire.Refresh, wire.Success, m.TxID).U32(wire.AttrLifetime, lt).Bytes())
@@ -257,8 +260,19 @@ func (x *exec) send(b []byte) { _, _ = x.srv.WriteTo(b, cliAddr) }
 
 // newWorld builds network, scripted server and the real client with an
 // allocation. Must run inside a synctest bubble.
-func newWorld(tcp bool) (*exec, error) {
-	x := &exec{net: simnet.New(), srvDone: make(chan struct{}), seenTx: map[[12]byte]*preq{}, writes: map[string]*wcall{},
+func (x *exec) grantedLifetime() uint32 {
+	if x.allocLTSet {
+		return x.allocLT
+	}
+
+	return 3600
+}
+
+func newWorld(tcp bool) (*exec, error) { return newWorldLT(tcp, 3600) }
+
+// newWorldLT: the scripted server answers the Allocate with the given LIFETIME.
+func newWorldLT(tcp bool, lifetime uint32) (*exec, error) {
+	x := &exec{allocLT: lifetime, allocLTSet: true,net: simnet.New(), srvDone: make(chan struct{}), seenTx: map[[12]byte]*preq{}, writes: map[string]*wcall{},
 		tokens: map[string]bool{}, classes: map[string]int64{}, extra: map[string]*net.UDPAddr{},
 		m: &model{granted: map[string]bool{}, bind: map[string]*mbind{}, owner: map[uint16]string{}, nonce: "nonce-0", consec438: map[string]int{}}}
 	x.net.LogOff = true
